@@ -50,6 +50,19 @@ CHECKS.update({
             "homogeneous input.", "DESIGN.md §3.4, §3.5, §4 C07"),
 })
 
+CHECKS.update({
+    "C06": (True, "symbolic evaluation with the matching flag left symbolic (non-interference), provenance of row entries, "
+                  "identity testing of derived index expressions",
+            CLAUSE + "Decides MT-NONINT, MT-COST, MT-MINUS1, MT-DROP, MT-COVER for both functions. Declines: that max/sum of "
+            "the row costs equals the distance (solver optimality) and which optimal matching is returned.",
+            SYMNOTE, "DESIGN.md §4 C06"),
+    "C14": (True, "symbolic evaluation of the kernel double loop to a ΣΣ normal form; translation-weight and units typing; "
+                  "sign analysis of the radicand",
+            CLAUSE + "Decides HT-KER, HT-DIST, HT-SWAP, HT-UNITS, HT-REAL and proves HT-SHIFT (translation invariance for "
+            "every input, exact arithmetic). Declines: exact zeros in floating point, triangle inequality, stability.",
+            SYMNOTE + "sigma > 0.", "DESIGN.md §4 C14"),
+})
+
 NOT_APPLICABLE = {
     "C05": "soundness of the mGH lower/upper bounds is a theorem about computed values for every graph pair and RNG "
            "draw; no ownership, ordering, wiring or algebraic-type argument implies it (DESIGN.md §6); nearby "
